@@ -4,6 +4,7 @@
     T|TM <text-hex>                      count + scan of a given text
     X a32|a64|f32|f64|sf32|sf64|si|tm …  the libc sub-models alone
   Output line: `P <ret> <text-hex> C <count> S <rd> <n> <cell>* [A <addr-hex>] E <eq>`
+  (scanned booleans are printed with their payload: `T1`, `F0`)
 -/
 import RtoscModel.Pretty.Check
 import Driver.Common
@@ -76,6 +77,14 @@ def showCell : Cell → String
   | .arr t len => s!"a{t.toNat}:{len}"
   | .rep n hd => s!"R{n}:{hd}"
 
+/-- the cells of the C10 output line: booleans with their payload `val.T` (the model's `.flag .T`
+    is the cell with type 'T' and `val.T = 1`, `.flag .F` the one with 'F' and `val.T = 0`: the
+    invariant every function of arg-val-math.c keeps and `rtosc_arg_val_to_int` relies on) -/
+def showCellT : Cell → String
+  | .flag .T => "T1"
+  | .flag .F => "F0"
+  | c => showCell c
+
 def showErr : Pretty.Err → String
   | .oob => "model:oob" | .undef => "model:undef" | .trap => "model:trap" | .unmodelled => "model:unmodelled"
   | .argval => "model:argval" | .fuel => "model:fuel" | .hang => "model:hang"
@@ -94,7 +103,7 @@ def countScan (text : Bytes) (msg : Bool) (orig : Option (List Cell)) : String :
       match scanned with
       | .error e => s!"C {count} S " ++ showErr e
       | .ok (rd, addr, cells) =>
-        let cellsTxt := String.join (cells.map (fun c => " " ++ showCell c))
+        let cellsTxt := String.join (cells.map (fun c => " " ++ showCellT c))
         let a := match addr with | some a => " A " ++ toHex a | none => ""
         let e := match orig with
           | none => ""
